@@ -79,6 +79,7 @@ type FnCtx struct {
 	lastPos token.Pos
 	maxPaths int
 	usedAssumed map[string]bool
+	eltyOn      int // 0 = not computed, 1 = element-type facts emitted, -1 = not needed
 	usedIntrinsics map[string]bool
 	panicExits int
 	normalExits int
